@@ -2,6 +2,7 @@ package mon
 
 import (
 	"fmt"
+	"math"
 	"reflect"
 	"sort"
 	"strings"
@@ -156,6 +157,11 @@ func eqSlot(a, b any) bool {
 	case []any, map[string]any:
 		return false
 	}
+	if x, ok := a.(float64); ok {
+		// floats by bit pattern: -0 is not +0 (the sign can be observed), NaN is the NaN it was
+		y, ok := b.(float64)
+		return ok && math.Float64bits(x) == math.Float64bits(y)
+	}
 	return sameValue(a, b) // == where Go defines it; the two non-comparable derived fixture types by their parts
 }
 
@@ -259,6 +265,18 @@ func c09Vals(r *rng.R, n int, homogeneous int) []any {
 				vals[i] = r.Bool()
 			case 4:
 				vals[i] = float64(r.Range(-8, 8)) / 2
+				if r.Chance(1, 4) {
+					// floats that printing code tends to treat specially, at the top level and one level down
+					sp := []float64{math.Copysign(0, -1), math.Inf(1), math.Inf(-1), math.NaN(), 1e21, 5e-324}[r.Intn(6)]
+					switch r.Intn(3) {
+					case 0:
+						vals[i] = sp
+					case 1:
+						vals[i] = at.NewList(1, sp, at.NewList(sp))
+					default:
+						vals[i] = at.NewObject("k", sp, "in", at.NewObject("deep", sp))
+					}
+				}
 			case 5:
 				vals[i] = c05Strs[r.Intn(len(c05Strs))]
 			default:
@@ -806,7 +824,7 @@ func c09PagingObjects(c *fw.Ctx, r *rng.R) {
 			}
 			p := mk(fmt.Sprintf("recv%d", k), o)
 			recvs = append(recvs, p)
-			trace = append(trace, fmt.Sprintf("%s = %s", p.name, spec.Trunc(o.String(), 160)))
+			trace = append(trace, fmt.Sprintf("%s = %s", p.name, spec.Trunc(stringCanon(o), 160)))
 		}
 		check := func(except *page, after string) bool {
 			for _, p := range live {
@@ -987,7 +1005,7 @@ func c09Paging(c *fw.Ctx, r *rng.R) {
 			l, how := buildReceiverList(r, vals)
 			p := mk(fmt.Sprintf("recv%d", k), l)
 			recvs = append(recvs, p)
-			trace = append(trace, fmt.Sprintf("%s = %s via %s", p.name, spec.Trunc(l.String(), 120), how))
+			trace = append(trace, fmt.Sprintf("%s = %s via %s", p.name, spec.Trunc(stringCanon(l), 120), how))
 		}
 		check := func(except *page, after string) bool {
 			for _, p := range live {
@@ -1129,6 +1147,8 @@ func c09Case(c *fw.Ctx, r *rng.R, forceOp int, pinned bool) {
 			vals := c09Vals(r, n, []int{0, 0, 1, 2, 3, 0, 0, 1, 2, 4}[r.Intn(10)])
 			recv, how := buildReceiverList(r, vals)
 			if pinned {
+				// every deriving operation meets a negative zero, at the top level and nested (its sign is content too)
+				vals = append(vals, math.Copysign(0, -1), at.NewList(math.Copysign(0, -1)), at.NewObject("z", math.Copysign(0, -1)))
 				recv = at.NewList(vals...)
 				recv.Add("j1", "j2", "j3")
 				recv.Pop().Pop().Pop()
@@ -1138,7 +1158,7 @@ func c09Case(c *fw.Ctx, r *rng.R, forceOp int, pinned bool) {
 			if r.Chance(1, 8) {
 				arg = recv
 			}
-			s.trace = append(s.trace, fmt.Sprintf("recv = %s via %s; arg = %s", spec.Trunc(recv.String(), 200), how, spec.Trunc(arg.String(), 100)))
+			s.trace = append(s.trace, fmt.Sprintf("recv = %s via %s; arg = %s", spec.Trunc(stringCanon(recv), 200), how, spec.Trunc(stringCanon(arg), 100)))
 			if sv, ok := any(recv).(interface {
 				VerifStorage() (uintptr, int, int)
 			}); ok {
@@ -1222,7 +1242,7 @@ func c09Case(c *fw.Ctx, r *rng.R, forceOp int, pinned bool) {
 				arg.Set("nil-in-arg", nil, "nil-in-recv", 6, "nil-in-both", nil, "nil-in-arg-container", nil)
 				c.Count("related_arguments")
 			}
-			s.trace = append(s.trace, fmt.Sprintf("recv = %s; arg = %s", spec.Trunc(recv.String(), 200), spec.Trunc(arg.String(), 100)))
+			s.trace = append(s.trace, fmt.Sprintf("recv = %s; arg = %s", spec.Trunc(stringCanon(recv), 200), spec.Trunc(stringCanon(arg), 100)))
 			s.add("recv", recv)
 			s.add("arg", arg)
 			for d := 0; d < 2 && !s.failed; d++ {
